@@ -23,6 +23,7 @@
 
 #include <tbox/base/log.h>
 #include <tbox/base/json.hpp>
+#include <tbox/base/scope_exit.hpp>
 
 namespace tbox {
 namespace main {
@@ -102,6 +103,14 @@ void Module::fillDefaultConfig(Json &js_parent)
 
 bool Module::initialize(const Json &js_parent)
 {
+    //! 防止在 onXxx() 中重入本模块的 initialize(),start(),stop(),cleanup()
+    if (is_in_action_) {
+        LogWarn("module %s is busy, initialize() refused", name_.c_str());
+        return false;
+    }
+    is_in_action_ = true;
+    SetScopeExitAction([this] { is_in_action_ = false; });
+
     if (state_ != State::kNone) {
         LogWarn("module %s's state is not State::kNone", name_.c_str());
         return false;
@@ -119,12 +128,13 @@ bool Module::initialize(const Json &js_parent)
         return false;
     }
 
-    for (auto iter = children_.begin(); iter != children_.end(); ++iter) {
-        if (!iter->module_ptr->initialize(js_this) && iter->required) {
-            LogErr("required module `%s' initialize() fail", iter->module_ptr->name().c_str());
+    //! 用下标遍历：子模块的 onInit() 可能向本模块 add() 新的子模块，迭代器会失效
+    for (size_t i = 0; i < children_.size(); ++i) {
+        if (!children_[i].module_ptr->initialize(js_this) && children_[i].required) {
+            LogErr("required module `%s' initialize() fail", children_[i].module_ptr->name().c_str());
             //! 回滚：逆序清理之前已处理的子模块，再清理自己
-            while (iter != children_.begin())
-                (--iter)->module_ptr->cleanup();
+            while (i > 0)
+                children_[--i].module_ptr->cleanup();
             onCleanup();
             return false;
         }
@@ -136,6 +146,13 @@ bool Module::initialize(const Json &js_parent)
 
 bool Module::start()
 {
+    if (is_in_action_) {
+        LogWarn("module %s is busy, start() refused", name_.c_str());
+        return false;
+    }
+    is_in_action_ = true;
+    SetScopeExitAction([this] { is_in_action_ = false; });
+
     if (state_ != State::kInited) {
         LogWarn("module %s's state is not State::kInited", name_.c_str());
         return false;
@@ -163,6 +180,18 @@ bool Module::start()
 
 void Module::stop()
 {
+    if (is_in_action_) {
+        LogWarn("module %s is busy, stop() refused", name_.c_str());
+        return;
+    }
+    is_in_action_ = true;
+    SetScopeExitAction([this] { is_in_action_ = false; });
+
+    doStop();
+}
+
+void Module::doStop()
+{
     if (state_ != State::kRunning)
         return;
 
@@ -176,10 +205,17 @@ void Module::stop()
 
 void Module::cleanup()
 {
+    if (is_in_action_) {
+        LogWarn("module %s is busy, cleanup() refused", name_.c_str());
+        return;
+    }
+    is_in_action_ = true;
+    SetScopeExitAction([this] { is_in_action_ = false; });
+
     if (state_ == State::kNone)
         return;
 
-    stop();
+    doStop();
 
     for (auto iter = children_.rbegin(); iter != children_.rend(); ++iter)
         iter->module_ptr->cleanup();
